@@ -150,35 +150,56 @@ def read_event(data, selfcheck=False):
     return {'k': 'read', 'recs': recs, 'end': end, 'line': line, 'selfcheck': bool(selfcheck)}
 
 
-def run_writer(tid, ctor_enc, calls, cat, read=True, selfcheck=False):
-    """Execute a concrete call sequence; return (trace, final bytes, info)."""
+def _exec(ctor_enc, calls):
+    """Run the calls on a fresh real writer; per call (accepted, before, after, nbadops, family)."""
     from pydiffx import DiffXWriter
     s = LogStream()
-    ev = []
     w = DiffXWriter(s, encoding=ctor_enc)
-    ev.append({'k': 'init', 'enc': cat.enc(ctor_enc), 'appended': bl(s.getvalue())})
-    exc = []
+    init = s.getvalue()
+    res = []
     for op, kw in calls:
         before = s.getvalue()
         nbad = len(s.bad_ops)
-        accepted = True
+        fam = ''
         try:
             do_call(w, op, kw)
         except Exception as e:      # noqa: any raise is a rejection (DESIGN.md 8)
-            accepted = False
-            exc.append(exc_family(e))
-        else:
-            exc.append('')
+            fam = exc_family(e)
         after = s.getvalue()
-        appendonly = after.startswith(before) and len(s.bad_ops) == nbad
-        ev.append({'k': 'call', 'c': abs_call(op, kw, cat), 'accepted': accepted,
-                   'appended': bl(after[len(before):]) if after.startswith(before) else bl(after),
-                   'appendonly': appendonly})
-    data = s.getvalue()
+        res.append((fam == '', before, after, len(s.bad_ops) - nbad, fam))
+    return init, res, s.getvalue()
+
+
+def run_writer(tid, ctor_enc, calls, cat, chk, read=None, selfcheck=False, twin=None):
+    """Execute a concrete call sequence on the real writer; return (trace, bytes, info).
+
+    chk: {'order','bytes','read'} booleans - which clauses the trace is judged on.
+    twin (default: chk['order']): also run the sequence without its rejected
+    calls and record what each accepted call appended there.
+    """
+    if twin is None:
+        twin = chk['order']
+    if read is None:
+        read = chk['read']
+    init, res, data = _exec(ctor_enc, calls)
+    tw = None
+    if twin and any(not r[0] for r in res):
+        _, tres, _ = _exec(ctor_enc, [c for c, r in zip(calls, res) if r[0]])
+        tw = iter(tres)
+    ev = [{'k': 'init', 'enc': cat.enc(ctor_enc), 'appended': bl(init)}]
+    for (op, kw), (acc, before, after, nbad, fam) in zip(calls, res):
+        pref = after.startswith(before)
+        app = after[len(before):] if pref else after
+        t = app
+        if acc and tw is not None:
+            tacc, tb, ta, _, _ = next(tw)
+            t = ta[len(tb):] if (tacc and ta.startswith(tb)) else b'<twin-rejected>'
+        ev.append({'k': 'call', 'c': abs_call(op, kw, cat), 'accepted': acc, 'appended': bl(app),
+                   'appendonly': pref and nbad == 0, 'twin': bl(t)})
     if read:
         ev.append(read_event(data, selfcheck))
-    cmap = cmap_for(data, cat)
-    return {'id': tid, 'cmap': cmap, 'ev': ev}, data, {'exc': exc}
+    return ({'id': tid, 'cmap': cmap_for(data, cat), 'chk': chk, 'ev': ev}, data,
+            {'exc': [r[4] for r in res]})
 
 
 import re
